@@ -348,7 +348,7 @@ def judge(ctx, traces, canaries=True):
     n = len(traces)
     if len([i for i in bad if i >= n]) != len(cans):
         from ..tlc import MachineryError
-        raise MachineryError("Trace_V3Stream accepted a canary")
+        ctx.defer_machinery("Trace_V3Stream accepted a canary")
     ctx.extra["canaries_rejected"] = len(cans)
     for i, clause in bad.items():
         if i < n:
